@@ -231,6 +231,11 @@ def r20_5(ctx):
                     seen.append(expr_str(e)[:50])
                     if e.get("k") in ("Call", "MethodCall") and (e.get("ty") or "") == "bool" and any(const_str(a) == opt for a in e["args"]):
                         ok = True
+                    # ... and on nothing else the user wrote: an explicit `props` must not switch the inference of `emits` off (nor the reverse)
+                    others = [o for o in want.values() if o != opt]
+                    if e.get("k") in ("Call", "MethodCall") and (e.get("ty") or "") == "bool" and any(const_str(a) in others for a in e["args"]):
+                        r.ob("%s: %s does not depend on the other option being written" % (hb["name"], role), False, C.mloc(hb, x),
+                             "reached only when the options have no `%s` either: writing one option suppresses the inference of the other" % [const_str(a) for a in e["args"] if const_str(a) in others][0])
                 r.ob("%s: %s runs only when the options have no `%s`" % (hb["name"], role, opt), ok, C.mloc(hb, x),
                      "under the failed test %s" % [t for t in seen if opt in t][:1] if ok else "no failed existing-key test for `%s` is known at this call (negated facts here: %s)" % (opt, seen[:3]))
     r.ob("extractor call sites examined", n > 0, "-", "%d site(s)" % n)
